@@ -35,6 +35,8 @@ def run(ck: Check, repo: Repo) -> None:
     _weights(ck, repo)
     _strata(ck, repo)
     _retrieve(ck, repo)
+    from ._c11_r3b import run_r3b
+    run_r3b(ck, repo)
 
 
 def _setitem(ck: Check, repo: Repo) -> None:
@@ -664,4 +666,33 @@ VARIANTS += [
      "            if p_sample > 0:\n                weights[i] = weight / max_weight\n", "fire", "C11.5"),
     ("weights-range-loop-neighbour-index", _RBF, "        for i, idx in enumerate(indices):\n", "        for i in range(batch_size):\n            idx = indices[i - 1]\n", "fire", "C11.5"),
     ("weights-rescaled-after-loop", _RBF, "        return weights\n\n    def update_priorities(", "        weights /= weights.sum()\n        return weights\n\n    def update_priorities(", "fire", "C11.5"),
+]
+# C11.8: every (index, priority) pair of an update reaches _update_priority; C11.9: the weights keep a fixed wide floating type
+_UP_CALL = "            # Update the priority\n            self._update_priority(idx.item(), priority)\n"
+_UP_HEAD = "        for idx, priority in zip(indices, priorities):\n            # Handle small priorities\n"
+_W_ALLOC = "        weights = torch.zeros(batch_size, device=self.device)\n"
+_W_RET = "        return weights\n\n    def update_priorities("
+VARIANTS += [
+    ("update-skips-repeated-index", _RBF, _UP_HEAD, "        updated = set()\n        for idx, priority in zip(indices, priorities):\n            if idx.item() in updated:\n"
+     "                continue\n            updated.add(idx.item())\n            # Handle small priorities\n", "fire", "C11.8"),
+    ("update-skips-repeated-index-nested-if", _RBF, _UP_CALL, "            if idx.item() not in self._written:\n                self._written.add(idx.item())\n"
+     "                self._update_priority(idx.item(), priority)\n", "fire", "C11.8"),
+    ("update-stops-at-first-small-priority", _RBF, _UP_HEAD, "        for idx, priority in zip(indices, priorities):\n            if priority.item() <= 0:\n                break\n"
+     "            # Handle small priorities\n", "fire", "C11.8"),
+    ("update-write-in-conditional-expression", _RBF, _UP_CALL, "            self._update_priority(idx.item(), priority) if priority > self.max_priority else None\n", "fire", "C11.8"),
+    ("update-writes-priority-of-first-pair", _RBF, "            priority = max(priority.item(), 1e-5)\n", "            priority = max(priorities[0].item(), 1e-5)\n", "fire", "C11.8"),
+    ("update-temporaries-ok", _RBF, "            priority = max(priority.item(), 1e-5)\n\n" + _UP_CALL,
+     "            floored = max(priority.item(), 1e-5)\n            position = int(idx.item())\n            self._update_priority(position, floored)\n", "silent", None),
+    ("update-floor-by-if-ok", _RBF, "            priority = max(priority.item(), 1e-5)\n",
+     "            priority = priority.item()\n            if priority < 1e-5:\n                priority = 1e-5\n", "silent", "C11.8"),
+    ("weights-in-storage-dtype", _RBF, _W_ALLOC, "        weights = torch.zeros(batch_size, dtype=self.dtype, device=self.device)\n", "fire", "C11.9"),
+    ("weights-cast-to-storage-dtype-on-return", _RBF, _W_RET, "        return weights.to(self.dtype)\n\n    def update_priorities(", "fire", "C11.9"),
+    ("weights-cast-to-storage-dtype-through-local", _RBF, _W_RET, "        kind = self.dtype\n        weights = weights.to(device=self.device, dtype=kind)\n        return weights\n\n    def update_priorities(", "fire", "C11.9"),
+    ("weights-half-precision", _RBF, _W_RET, "        return weights.half()\n\n    def update_priorities(", "fire", "C11.9"),
+    ("weights-typed-like-the-indices", _RBF, _W_ALLOC, "        weights = torch.zeros_like(indices, device=self.device)\n", "fire", "C11.9"),
+    ("weights-cast-in-sample", _RBF, 'samples["weights"] = weights.unsqueeze(1)', 'samples["weights"] = weights.unsqueeze(1).to(self.dtype)', "fire", "C11.9"),
+    ("weights-comprehension-in-storage-dtype", _RBF, _W_LOOP, f"        return torch.tensor([{_W_ELT} for idx in indices], dtype=self.dtype, device=self.device)\n", "fire", "C11.9"),
+    ("weights-explicit-float32-ok", _RBF, _W_ALLOC, "        weights = torch.zeros(batch_size, dtype=torch.float32, device=self.device)\n", "silent", None),
+    ("weights-allocated-then-moved-ok", _RBF, _W_ALLOC, "        weights = torch.zeros(batch_size)\n        weights = weights.to(self.device)\n", "silent", None),
+    ("weights-float-cast-in-sample-ok", _RBF, 'samples["weights"] = weights.unsqueeze(1)', 'samples["weights"] = weights.float().unsqueeze(1)', "silent", None),
 ]
